@@ -66,7 +66,7 @@ class C01(Check):
                 yield {'prog': pre + [a] + post, 'mode': 'assert-fail', 'seqs': seqs, 'shape': rng.choice(gen.INTERLEAVINGS),
                        'iseed': rng.randrange(1 << 30), 'truthy': False}
                 continue
-            truthy = (k % 10 == 9)
+            truthy = (k % 10 == 9) if (k // 10) % 2 else (k % 10 == 4)      # (k % 10 == 9 alone is always odd: never the 'roll' turn of k % 6)
             scale = (k % 150 == 7)
             opts = gen.GenOpts(dual_only=True, max_depth=2 if not scale else 1, truthy_predicates=truthy, tee_weight=3, no_streaming_mutation=True,
                                scale=scale, exclude_ops=('fvariance', 'fstddev') if scale else ())
